@@ -676,6 +676,7 @@ func main() {
 	}
 	sum := mcx.Explore(r, scs, mcx.Config{Wall: ev.Pick(r, 4*time.Minute, 25*time.Minute)})
 	mcx.Report(r, scs, sum)
+	mcx.RacePass(r, 17, "pkg/")
 	r.Set("scenarios", int64(len(scs))) // per-scenario detail would be thousands of entries
 	r.Set("programs", int64(len(scs)))
 	r.Set("rule", "scenario = small concurrent program over the real pkg/sync.Map / pkg/cache.Cache (pairs of all 18 API methods on equal and different keys; triples and 2+1 / 2+2 / 3+3 / 2+2+2 programs over the multi-step methods; cache programs with fresh and expired elements against a fixed virtual now); every interleaving at lock granularity within the stated preemption bound is executed on the compiled code and its call/return history is checked by porcupine against the sequential map specification; distinct outcome = distinct recorded history")
